@@ -460,7 +460,7 @@ pub fn main(ctx: &Ctx) -> i32 {
         std::fs::remove_dir_all(&work).ok();
         return 1;
     }
-    let n = ctx.tier.pick(48u32, 600u32);
+    let n = ctx.tier.pick(48u32, 240u32);
     let w2 = work.clone();
     let fail = run_cases(ctx, &stats, (|| case_strategy().boxed()) as fn() -> _, n, 6, 12, move |c| run_case(c, &w2, seed));
     std::fs::remove_dir_all(&work).ok();
